@@ -787,8 +787,36 @@ def rtc_histories(case_names, tier):
     return rec.obligations()
 
 
+def rtc_initial_vectors(tier):
+    """history with caller-supplied start vectors: root_inv_decomposition(method='lanczos', initial_vectors=V, test_vectors=W) writes a
+    root_decomposition entry as a side effect; a later root_decomposition() / root_inv_decomposition() on the same object must still be
+    a root of THIS operator with the shape a fresh copy gives (one and several start vectors, batched and not)"""
+    torch, zoo, rec, _seed = _setup()
+    f64 = torch.float64
+    for name in ("dense_psd", "toeplitz", "sum", "constmul"):
+        case = zoo.BY_NAME[name]
+        for batch in ((), (3,), (2, 2)) + (((1, 3),) if tier != "quick" else ()):
+            for n in (5,) if tier == "quick" else (3, 5, 8):
+                for cols in (1, 2, 4):
+                    op, D = case.build(zoo.gen(31), f64, batch, n)
+                    N = D.shape[-1]
+                    g = zoo.gen(32)
+                    iv, tv = zoo.rn(g, *batch, N, cols, dtype=f64), zoo.rn(g, *batch, N, cols, dtype=f64)
+                    lab = f"{name}|float64|b={batch}|n={N}|start_vectors={cols}"
+                    try:
+                        torch.manual_seed(5)
+                        op.root_inv_decomposition(method="lanczos", initial_vectors=iv, test_vectors=tv)
+                        R = op.root_decomposition().root.to_dense()
+                        ok = tuple(R.shape[:-1]) == tuple(D.shape[:-1]) and float((R @ R.mT - D).abs().max()) <= 1e-3 * max(1.0, float(D.abs().max()))
+                        detail = f"root_decomposition() after it: root of shape {tuple(R.shape)} for an operator of shape {tuple(D.shape)}" + ("" if tuple(R.shape[:-1]) != tuple(D.shape[:-1]) else f", |R R^T - A| = {float((R @ R.mT - D).abs().max()):.2e}")
+                    except Exception as ex:  # noqa
+                        ok, detail = False, f"raised {type(ex).__name__}: {ex}"[:300]
+                    rec.check(f"history/initial_vectors_then_root/{name}", lab, ok, detail)
+    return rec.obligations()
+
+
 def rtc_units(tier):
-    us = []
+    us = [Unit("C12/rtc/initial_vectors", "contracts.rtc_C12", "rtc_initial_vectors", (tier,), engine="rtc", timeout_s=900)]
     chunk = 1
     for i in range(0, len(ZOO_PSD), chunk):
         nm = ZOO_PSD[i:i + chunk]
